@@ -108,6 +108,16 @@ func (b *siteBuilder) doc(levels int) string {
 			r.Assets = append(r.Assets, b.leaf())
 		}
 	}
+	if kind == "json" && b.pick("jsonlinks", 3) == 0 {
+		// an API answer pointing at further pages ("next": ".../items?page=2"): URLs without a file extension are outlinks
+		for i := 0; i < 1+b.pick("njsonlinks", 2); i++ {
+			r.Links = append(r.Links, b.name("jl", ""))
+		}
+		if b.pick("jsonlinksonly", 3) == 0 {
+			r.Assets = nil // nothing but links
+		}
+		b.feat["json-outlinks"] = true
+	}
 	b.site[u] = b.failing(r)
 	return u
 }
